@@ -228,7 +228,7 @@ End ExploreSound.
 Definition gstep : cstate -> clabel -> cstate :=
   cstep gen_p_retry gen_p_reroute gen_p_kill_head gen_p_finish_ok gen_p_finish_err gen_pop_before_claim.
 
-Definition R : list cstate := fst (cexplore gstep (200 * 300) inits inits (cindex inits)).
+Definition R : list cstate := fst (cexplore gstep (150 * 100) inits inits (cindex inits)).
 Definition G : list cstate := good_of gstep R.
 
 Lemma check_all_true : check_all_on gstep R G = true.
